@@ -38,7 +38,7 @@ const (
 	partX    = "e2e-x"
 	partTCP  = "e2e-tcp"
 
-	exchangeDeadline = 20 * time.Second
+	exchangeDeadline = 15 * time.Second
 )
 
 // ------------------------------------------------------------------------------------------------
@@ -565,7 +565,11 @@ func httpExchange(rt *rapid.T, g *httpRig, idx int, req *httpReq, resp *httpResp
 			"req_body": len(req.Body), "req_chunks": req.Chunks, "status": resp.Status, "resp_headers": shortHdr(resp.Header), "resp_body": len(resp.Body), "resp_chunks": resp.Chunks}
 	}, classes...)
 
-	desc := fmt.Sprintf("%s %s %q host=%s hdr=%s body=%d chunks=%v -> %d hdr=%s body=%d chunks=%v (exchange %d on the connection)", pairName, req.Method, req.target(), req.Host,
+	shortTarget := req.target()
+	if len(shortTarget) > 160 {
+		shortTarget = fmt.Sprintf("%s...(%d bytes)", shortTarget[:120], len(shortTarget))
+	}
+	desc := fmt.Sprintf("%s %s %q host=%s hdr=%s body=%d chunks=%v -> %d hdr=%s body=%d chunks=%v (exchange %d on the connection)", pairName, req.Method, shortTarget, req.Host,
 		shortHdr(req.Header), len(req.Body), req.Chunks, resp.Status, shortHdr(resp.Header), len(resp.Body), resp.Chunks, idx)
 	fail := func(sig, format string, a ...interface{}) {
 		scope := pairName
@@ -720,7 +724,7 @@ func checkHeaders(fail func(string, string, ...interface{}), what string, cross 
 			}
 			fail(sig, "%q arrived with %d of %d values: sent %s, arrived %s", name, len(gv), len(w), shortHdr(want), shortHdr(got))
 		case len(gv) > len(w):
-			fail(what+"-header-duplicated"+rep, "%q arrived with %d values, %d sent: sent %s, arrived %s", name, len(gv), len(w), shortHdr(want), shortHdr(got))
+			fail(what+"-header-duplicated:"+name+rep, "%q arrived with %d values, %d sent: sent %s, arrived %s", name, len(gv), len(w), shortHdr(want), shortHdr(got))
 		default:
 			sorted := func(s []string) []string { c := append([]string(nil), s...); sortS(c); return c }
 			if reflect.DeepEqual(sorted(w), sorted(gv)) {
@@ -864,7 +868,7 @@ func xCase(rt *rapid.T, p string) {
 	var mu sync.Mutex
 	planByBody := map[string]*codec.Frame{} // keyed by request bytes with the id zeroed
 	up := mesh.NewUpstream(p, func(r *mesh.Req) mesh.Action {
-		id, err := mesh.XFrameID(p, r.Frame)
+		id, err := reqFrameID(p, r.Frame)
 		if err != nil {
 			return mesh.Action{Kind: "drop"}
 		}
@@ -957,7 +961,7 @@ func xCase(rt *rapid.T, p string) {
 				fail("forwarded-request-differs", "tars request differs beyond the id: %s", d)
 			}
 		} else {
-			upID, _ := mesh.XFrameID(p, seen.Frame)
+			upID, _ := reqFrameID(p, seen.Frame)
 			want := setID(p, x.req, x.reqBytes, upID)
 			if !bytes.Equal(seen.Frame, want) {
 				fail("forwarded-request-differs", "upstream frame differs outside the id field: %s", firstDiff(seen.Frame, want))
@@ -975,14 +979,14 @@ func xCase(rt *rapid.T, p string) {
 			if ok, d := tarsEqualExceptID(gotResp, x.resp.Bytes, true); !ok {
 				fail("forwarded-response-differs", "tars response differs beyond the id: %s", d)
 			}
-			id, err := mesh.XFrameID(p, gotResp)
+			id, err := respFrameID(p, gotResp)
 			if err != nil || uint32(id) != uint32(x.req.ID) {
 				fail("response-id-not-restored", "client got id %d (err %v), its request carried %d", id, err, x.req.ID)
 			}
 		} else {
 			want := setID(p, x.resp, x.resp.Bytes, x.req.ID)
 			if !bytes.Equal(gotResp, want) {
-				id, _ := mesh.XFrameID(p, gotResp)
+				id, _ := respFrameID(p, gotResp)
 				if id != x.req.ID {
 					fail("response-id-not-restored", "client got id %d, its request carried %d", id, x.req.ID)
 				}
@@ -990,6 +994,30 @@ func xCase(rt *rapid.T, p string) {
 			}
 		}
 	}
+}
+
+// reqFrameID extracts the id of a request frame (mesh.XFrameID guesses the tars packet kind from the
+// servant name, which generated requests may leave empty).
+func reqFrameID(p string, frame []byte) (uint64, error) {
+	if p == "tars" {
+		pk, err := codec.TarsUnpackRequest(frame)
+		if err != nil {
+			return 0, err
+		}
+		return uint64(uint32(pk.IRequestId)), nil
+	}
+	return mesh.XFrameID(p, frame)
+}
+
+func respFrameID(p string, frame []byte) (uint64, error) {
+	if p == "tars" {
+		pk, err := codec.TarsUnpackResponse(frame)
+		if err != nil {
+			return 0, err
+		}
+		return uint64(uint32(pk.IRequestId)), nil
+	}
+	return mesh.XFrameID(p, frame)
 }
 
 func sameExceptID(p string, a, b []byte) bool {
